@@ -469,10 +469,12 @@ static int cmd_shrink(int argc, char **argv) {
   PropMask want = 0;
   if (propArg != "any") want = P(atoi(propArg.c_str() + 1));
   bool forked = true;
+  bool forceFork = false;
+  for (int i = 2; i < argc; ++i) if (std::string(argv[i]) == "--fork") forceFork = true;  // a candidate of a non-crashing violation may crash: evaluate every one in a child
   Eval first = eval_forked(e, p);
   if (first.kind == VK_NONE) { printf("SHRINK no-violation\n"); return 0; }
   if (want && !(first.props & want)) { printf("SHRINK property-not-in-set props=%s\n", props_str(first.props).c_str()); return 0; }
-  forked = first.kind == VK_CRASH || first.kind == VK_HANG;
+  forked = forceFork || first.kind == VK_CRASH || first.kind == VK_HANG;
   int kind = first.kind;
   auto same = [&](const Eval &ev) {
     if (ev.kind != kind) return false;
